@@ -171,6 +171,32 @@ func c10Files(r *rand.Rand, small bool) (book, log string) {
 }
 
 func runC10(c *core.Ctx) {
+	// plus command shapes drawn from the catalogue (flag combinations nobody listed by hand); stats opens
+	// its files by name and is exercised in the real-process part
+	{
+		r := c.Rng("shapes", 0)
+		have := map[string]bool{}
+		for _, cmd := range c10Cmds {
+			have[joinArgs(cmd.args)] = true
+		}
+		for n := 0; n < 8; {
+			sp := randomCmd(r, "x", "a", "2021/01/24")
+			if have[joinArgs(sp.Args)] || sp.Args[0] == "stats" {
+				continue
+			}
+			have[joinArgs(sp.Args)] = true
+			cc := c10Cmd{args: sp.Args, book: -1, log: -1}
+			idx := 0
+			if sp.Book {
+				cc.book, idx = idx, idx+1
+			}
+			if sp.Log {
+				cc.log = idx
+			}
+			c10Cmds = append(c10Cmds, cc)
+			n++
+		}
+	}
 	c.SetRule("faults: (1) library: for each small generated file every byte offset k in 0..len at which the reader starts failing x chunking {1 byte, 7 bytes, whole, random} x fault shape {(0,err), (n>0,err)}, plus lines of 64 KiB-1, 64 KiB, 64 KiB+1, 1 MiB as comment/note/entry/heading at first/middle/last position; (2) the same offsets through every stream-reading command of the real program (fault jobs: counting reader wrapped around the real files) on the log and on the book; (3) real binary: directory or missing file as log/book, files with a 70 KiB line, strace read-error injection incl. stats. Invariants: error delivered => failure; success => EOF was delivered and the result equals the fault-free one. Non-trivial = a faulted run in which the reader did deliver its error (counted from the wrapper); distinct = hash(file, offset, chunking, shape, command).")
 	c.Assume("a reader that fails at offset k fails on every later Read as well (sticky fault)")
 
